@@ -102,6 +102,16 @@ Print Assumptions C16_outer_spec.
 Print Assumptions C16_diagonal_spec.
 Print Assumptions C16_trace_spec.
 
+(* the arguments a caller may omit: the header's default template arguments are NumPy's documented defaults
+   (numpy.trace / numpy.diagonal: offset=0, axis1=0, axis2=1 — the FIRST two axes; numpy.tensordot: axes=2).
+   The left sides are the model of the headers' template defaults and are compared with the real defaulted calls
+   (trace(a), trace(a,off), trace(a,off,ax1), diagonal likewise, tensordot(a,b)) by the "forms" stream on rank 2..4 inputs. *)
+Theorem C16_default_arguments :
+  (default_offset, default_axis1, default_axis2, default_tensordot_axes)
+  = (np_default_offset, np_default_axis1, np_default_axis2, np_default_tensordot_axes).
+Proof. reflexivity. Qed.
+Print Assumptions C16_default_arguments.
+
 (* ---------- where the faithful model violates the full statement (known findings) ---------- *)
 Definition iota (s : list Z) (i : list Z) : Z := horner 0 i s + 1.
 
